@@ -1612,8 +1612,11 @@ def check_C10(ctx):
         s = clean_stream(ctx, corrupt_p=0.1)[1]
         a, b = sk.socketpair()
         a = canon.GuardSock(a)
-        a.settimeout(0.3)
-        end = rng.choice(["close", "timeout"])
+        # the stream always ends by the sender closing its side: a time-out ending would make the outcome depend on how
+        # quickly the sender thread is scheduled (under load a 0.3 s silence is not the end of the stream), and the
+        # time-out ending is exercised deterministically by the fake sockets above
+        a.settimeout(60)
+        end = "close"
         def sender(sock=b, data=s, end=end):
             pos = 0
             r = random.Random(len(data))
